@@ -1,7 +1,7 @@
 (* C17 — meta table: exactly the registered types, once each, with the right vtable.
    Statements only; proofs in MetaProps.v.  A vtable function is represented by the concrete
    type it was made for; [bad] = types whose CastFrom implementation changes the address. *)
-From Shred Require Import Base PlanObs PlanLemmas World WorldProps WorldMap Meta MetaProps.
+From Shred Require Import Base PlanObs PlanLemmas World WorldProps WorldMap Meta MetaProps Plan MetaIterMut.
 
 (* after ANY sequence of register calls (with repeats): no panic; the three tables stay aligned
    (slot i holds the vtable of tys[i], index of tys[i] is i, no type twice), and tys lists the
@@ -33,6 +33,20 @@ Theorem C17_iteration_yields_registered_present_in_first_registration_order :
     (forall k, mget w' k = mget w k).
 Proof. exact iter_spec. Qed.
 Print Assumptions C17_iteration_yields_registered_present_in_first_registration_order.
+
+(* the exclusive iterator: over a world in which the reached resources are not borrowed it yields precisely the
+   registered types that are present, in first-registration order, once each, through the vtable of their own type,
+   as exclusive borrows (the payload written through each of them is seen in the result and in the world afterwards;
+   nothing else changes) *)
+Theorem C17_exclusive_iteration_yields_registered_present_types_in_order :
+  forall bad regs t w, reg_all empty_table regs = Ok t -> inv w -> (forall ty, In ty regs -> ~ In ty bad) ->
+  (forall ty c, In ty regs -> lookup (ty, 0) (cells w) = Some c -> c_b c = BFree) ->
+  exists w' gs, iter_walk bad true (m_fns t) (m_tys t) w [] [] =
+    (w', gs, inl (map (fun ty => (ty, ty, payload_of w ty + 1)) (filter (presentb w) (dedup_first [] regs)))) /\
+    (forall k, mget w' k = if (snd k =? 0) && memN (fst k) (dedup_first [] regs)
+                           then option_map (fun v => (fst v, snd v + 1)) (mget w k) else mget w k).
+Proof. exact iter_mut_spec. Qed.
+Print Assumptions C17_exclusive_iteration_yields_registered_present_types_in_order.
 
 Example C17_example :
   let ops := [MReg 2; MReg 1; MReg 2; MReg 3; MReg 1; MIns 1 (1, 10)%N; MIns 3 (2, 30)%N; MIns 2 (3, 20)%N; MRem 3;
